@@ -45,7 +45,7 @@ theorem Chain.A_lt {b : Base} {s : St} : ∀ (acts : List Act) (D : List Cell) (
       simp only [Bool.false_eq_true, if_false] at h3
       rw [h3]; simp⟩⟩
   | a :: r, D, S, addr, h => by
-    obtain ⟨r', tail, h1, _, _, h4, _, h6⟩ := h
+    obtain ⟨r', tail, h1, _, _, h4, _, _, h6⟩ := h
     obtain ⟨ih1, ih2⟩ := Chain.A_lt r _ _ _ h6
     rw [h1]
     simp only [List.length_cons]
@@ -62,11 +62,11 @@ def Holds (b : Base) (a0 : Act) (rest0 : List Act) (s : St) : Prop :=
   WF s ∧ ∃ upper top rest, Running b s top rest ∧ top :: rest = upper ++ a0 :: rest0
 
 theorem holds_step_ext {b : Base} {a0 : Act} {rest0 : List Act} {s s' : St} (h : Holds b a0 rest0 s) (hv : VmStep s s')
-    (ha : a0.A ≤ s'.addr.length) : Holds b a0 rest0 s' ∧ TExt s s' := by
+    (ha : a0.A ≤ s'.addr.length) : Holds b a0 rest0 s' ∧ TExt s s' ∧ s'.suspended = s.suspended := by
   obtain ⟨hw, upper, top, rest, hr, hst⟩ := h
   obtain ⟨fuel, i, _, hf, hex⟩ := hv
-  obtain ⟨hw', he, hn, _⟩ := (allSpec' (fuel + 1)).exec b s s' top rest i hw hr hf hex
-  refine ⟨?_, he⟩
+  obtain ⟨hw', he, hn, hsu⟩ := (allSpec' (fuel + 1)).exec b s s' top rest i hw hr hf hex
+  refine ⟨?_, he, hsu⟩
   have hlt := Chain.A_lt _ _ _ _ hr.chain
   have hmem : a0 = top ∨ a0 ∈ rest := by
     have : a0 ∈ top :: rest := by rw [hst]; simp
